@@ -54,6 +54,17 @@ def weight_cases(ctx, jmax):
 def d_cases(ctx, rnd, n_angles, jmax=8, sample=None):
     from tf_pwa.dfun import small_d_matrix, D_matrix_conj
     cases = []
+    # history: the first use of every spin in this process is in SINGLE precision (a quick float32 scan); whatever the library
+    # caches per spin (weight tables, index tables) must not carry that precision into the float64 evaluations tied below
+    import tensorflow as tf
+    for j2 in range(jmax + 1):
+        try:
+            small_d_matrix(tf.constant([0.3], dtype=tf.float32), j2)
+            D_matrix_conj(tf.constant([0.1], dtype=tf.float32), tf.constant([0.3], dtype=tf.float32), tf.constant([0.2], dtype=tf.float32), j2)
+            ctx.count("history:float32_first")
+        except Exception as e:  # single precision not supported by a function: no history through it
+            ctx.count("history:float32_unsupported")
+            ctx.notes.append("float32 call failed: %r" % (e,))
     betas = [0.0, math.pi, math.pi / 2] + [rnd.uniform(0, math.pi) for _ in range(n_angles)]
     for bi, beta in enumerate(betas):
         alpha = rnd.uniform(-math.pi, math.pi); gamma = rnd.uniform(-math.pi, math.pi)
@@ -204,13 +215,28 @@ def su2_cases(ctx, rnd, n):
         b1, b2 = abs(b1), abs(b2)
         om = rnd.uniform(0.1, 1.5)
         R = lambda a, b, g: SU2M.Rotation_z(T(a)) * SU2M.Rotation_y(T(b)) * SU2M.Rotation_z(T(g))
-        kind = k % 3
+        kind = k % 8
+        atol = 1e-9
         if kind == 0:
             X = R(a1, b1, g1)
         elif kind == 1:
             X = R(a1, b1, g1) * R(a2, b2, g2).inv()
-        else:
+        elif kind == 2:
             X = R(a1, b1, g1) * SU2M.Boost_z(T(om)) * SU2M.Boost_z(T(-om)) * R(a2, b2, g2)
+        else:
+            # products that compose to beta = 0 or pi (end points of acos; conditioning sqrt(eps): atol 1e-6)
+            atol = 1e-6
+            if kind == 3:
+                X = R(a1, b1, g1) * R(a1, b1, g1).inv()  # identity
+            elif kind == 4:
+                X = SU2M.Boost_z(T(om)).inv() * SU2M.Rotation_z(T(a1)) * SU2M.Boost_z(T(om))  # boost^-1 Rz boost = Rz
+            elif kind == 5:
+                X = SU2M.Rotation_y(T(math.pi)) * SU2M.Rotation_z(T(a1))  # beta = pi
+            elif kind == 6:
+                X = SU2M.Rotation_z(T(a1)) * SU2M.Rotation_y(T(math.pi)) * SU2M.Rotation_z(T(g1))
+            else:
+                Y = R(a1, b1, g1).inv() * SU2M.Boost_z(T(om)) * R(a1, b1, g1)
+                X = Y.inv() * Y  # (R^-1 B R)^-1 (R^-1 B R)
         ctx.count("su2_kind_%d" % kind)
         x = [[complex(np.array(X["x"][i][j]).reshape(-1)[0]) for j in range(2)] for i in range(2)]
         e = X.get_euler_angle()
@@ -222,7 +248,7 @@ def su2_cases(ctx, rnd, n):
         for (i, m2) in ((0, -1), (1, 1)):
             for (j, n2) in ((0, -1), (1, 1)):
                 cases.append(("su2_%d_%d%d" % (k, i, j),
-                              cplx_stmt("Dconj 1 (%d) (%d) %s %s %s" % (n2, m2, Rq(al), Rq(be), Rq(ga)), x[i][j], rtol=0, atol=1e-9),
+                              cplx_stmt("Dconj 1 (%d) (%d) %s %s %s" % (n2, m2, Rq(al), Rq(be), Rq(ga)), x[i][j], rtol=0, atol=atol),
                               RT, {"fn": "SU2M.get_euler_angle", "kind": kind, "x": str(x), "euler": [al, be, ga]}))
     return cases
 
@@ -268,7 +294,7 @@ def run(ctx):
     cases += gather_cases(ctx, rnd, 15 if quick else 150)
     cases += cg_cases(ctx, rnd, ctx.tier)
     ctx.log("cg", len(cases))
-    cases += su2_cases(ctx, rnd, 9 if quick else 60)
+    cases += su2_cases(ctx, rnd, 16 if quick else 80)
     ctx.log("all", len(cases))
     for c in cases[:: max(1, len(cases) // 5)]:
         ctx.sample({"case": c[0], "goal": c[1][:300], "meta": {k: (v if k != "items" else "...") for k, v in c[3].items()}})
